@@ -240,6 +240,26 @@ def run(ctx):
         ctx.ok('R3', 'running out of compressed data is decided by the compressed side only', b.defpath, '%d exhaustion exit(s), controlled by LOW predicates (see pred rule)' % len(sinks['exhaust']), key=key)
     else:
         ctx.bad('R3', 'running out of compressed data is decided by the compressed side only', b.defpath, 'no OutOfCompressedData exit found', key=key, loc=rules.loc(b))
+    # the exhaustion *query* obeys the same discipline: its answer may consult the two backends and the compressed head, never
+    # the remainders head, whose value depends on the models used so far
+    me = [x for x in F.bodies if x.promoted is None and x.name == 'maybe_exhausted' and x.self_adt == CHAIN and (x.impl_trait or '') == 'stream::Decode']
+    kq = 'R3/ni/exhaustion-query/' + CHAIN
+    rq = 'Decode::maybe_exhausted does not look at the remainders head'
+    if not me:
+        ctx.unresolved('R3', rq, CHAIN, 'no Decode::maybe_exhausted override (the trait default answers `true`)', key=kq)
+    else:
+        ctx.touch(me[0])
+        _, pq = rules.evaluate(me[0])
+        is_rh = lambda x: isinstance(x, tuple) and x and x[0] == 'in' and ('f', 'heads') in x[1] and x[1][-1] == ('f', 'remainders')
+        hit = None
+        for r in pq or []:
+            for t in [tt for tt, v, _ in r.preds] + ([r.ret] if r.ret is not None else []) + [a for e in r.events if e['kind'] == 'call' for a in (e.get('args_val') or []) if isinstance(a, tuple)]:
+                if sym.contains(rules.inline_pure(F, t), is_rh):
+                    hit = t
+        if hit is not None:
+            ctx.bad('R3', rq, me[0].defpath, 'the answer is computed from heads.remainders (%s): that head is the product of the probabilities of the models used so far, so whether the decoder reports that it may be exhausted now depends on the models, not on the compressed data alone' % sym.show(hit)[:100], key=kq, loc=rules.loc(me[0]))
+        else:
+            ctx.ok('R3', rq, me[0].defpath, 'the answer is a function of the backends (and at most the compressed head)', key=kq)
     return meta()
 
 
